@@ -206,7 +206,11 @@ class MailboxData(MailboxDataInterface[Message]):
 
     @classmethod
     def _get_object_id(cls, rec: Record, field: str) -> ObjectId | None:
-        return ObjectId.maybe(rec.fields.get(field))
+        value = rec.fields.get(field)
+        if value:
+            # the uidlist keeps the parenthesised form, str(ObjectId)
+            value = value.removeprefix('(').removesuffix(')')
+        return ObjectId.maybe(value)
 
     @property
     def mailbox_id(self) -> ObjectId:
